@@ -48,6 +48,9 @@ def run_property(pid: str, tier: str, seed: int, quiet=False, shared=None) -> in
         mod.run(ctx)
         stats = ctx.sm.stats()
         stats['repo'] = ctx.sm.root
+        nz = dict(ctx.sm.normalisation)
+        nz.pop('changed_modules', None)
+        stats['normalisation'] = nz
         if 'cg' in ctx._cache:
             stats.update(ctx._cache['cg'].stats())
         return report.finish(ctx.res, seed=seed, stats=stats, quiet=quiet)
